@@ -67,6 +67,11 @@ package domain
 //@   # runs (known finding, /verif/findings/c02_index_truncate_window_test.go)
 //@   assert_after "err := ip.p.Truncate(" err == nil ==> (forall k int :: old(len(fs.SpecFile[ip.p.File])) <= k && k < len(fs.SpecFile[ip.p.File]) ==> fs.SpecFile[ip.p.File][k] == pointerEncoded[k-start*26])
 //@   # after WriteAt (and at any later crash point): the file is exactly the prepared index
+//@   # order of persists (C09/C02 over schedules): closures run after the index lock is released, in
+//@   # any order; the file is only rewritten by a snapshot that is not older than the one it holds,
+//@   # and a successful rewrite records its number
+//@   assert_before "err := ip.p.Truncate(" seq >= ip.persisted
+//@   assert_after "ip.persisted = seq" ip.persisted == seq
 //@   assert_after "_, err = ip.p.WriteAt(" err == nil ==> len(fs.SpecFile[ip.p.File]) == (start*26+len(pointerEncoded)) && (forall k int :: start*26 <= k && k < (start*26+len(pointerEncoded)) ==> fs.SpecFile[ip.p.File][k] == pointerEncoded[k-start*26]) && (forall k int :: 0 <= k && k < start*26 ==> fs.SpecFile[ip.p.File][k] == old(fs.SpecFile[ip.p.File][k]))
 
 //@ # a is b with p inserted at position k (every other pointer kept, in order)
